@@ -61,13 +61,15 @@ class KaniJob:
 class RsxJob:
     kind = "rsx"
 
-    def __init__(self, harness, args, bounds, tier="q", timeout=600, mem_gb=8, core=True,
+    def __init__(self, harness, args, bounds, tier="q", timeout=None, mem_gb=8, core=True,
                  encodes=(), cost=10, features=()):
         self.harness = harness
         self.args = dict(args)
         self.bounds = bounds
         self.tier = tier
-        self.timeout = timeout
+        # a job that needs far longer than its measured cost is stuck (path explosion on changed code):
+        # cap it so that the check stays usable; a capped core job makes the check inconclusive, never green
+        self.timeout = timeout if timeout is not None else int(max(120, 40 * cost))
         self.mem_gb = mem_gb
         self.core = core
         self.encodes = tuple(encodes)
